@@ -18,6 +18,7 @@ CLAIMS = {
  "C09": ("model_checking", "every prover message is opened symbolically against the witness: z3 proves A/S/T commitments and the published blinding scalars equal the protocol formulas for all values; each blinding is a single distinct RNG draw used only where prescribed (term DAG); RNG keying is read from the instrumented Merlin", "4/C09"),
  "C10": ("model_checking", "real InnerProductProof::create/verify through the guarded re-export with symbolic a, b and factor vectors: completeness identity, verdict == explicit folding for arbitrary proof objects, exactly k rounds, length mismatch and degenerate cross terms", "4/C10"),
  "C13": ("model_checking", "commit(v,r) = v*B + r*Bblind, homomorphism, scaling, Prover::commit, for symbolic v, r and arbitrary bases (loop-free: no size bound), plus structured literal limb patterns", "4/C13"),
+ "C18": ("translation_validation", "translation validation against a pinned reference protocol (independent prover, unbatched verifier, transcript schedule, generator derivation, byte layout in symark/src/{refimpl,oracle,scen_c06}.rs): z3 proves the real prover's messages and the real verifier's check equal the reference formulas for all values; both provers are run against both verifiers natively on all three curves. Recorded byte-level fixtures of the reference revision are NOT used (none exist in the tree; see DESIGN 4/C18)", "4/C18"),
  "C15": ("model_checking", "for seeded expression trees over every operator impl z3 proves the denotation of the built LinearCombination equals the tree's value for all coefficient and variable values; the constraint pipeline accepts exactly the reference constant (C02 characterisation)", "4/C15"),
 }
 NA = {
@@ -27,7 +28,6 @@ NA = {
  "C14": "Engine M (MIR->SMT) check under construction in this round",
  "C16": "Engine K (Kani) harnesses under construction in this round",
  "C17": "Engine K (Kani) harness + Engine S capacity-independence under construction in this round",
- "C18": "reference-protocol translation validation under construction in this round",
 }
 try:
     from claims_extra import EXTRA_CLAIMS, EXTRA_NA  # optional overrides
